@@ -46,7 +46,9 @@ Definition allowed_globals : list (string * string) :=
    ("load", "libxmp_verif_pregate");           (* verification hook H1 *)
    ("loaders_vorbis", "crc_table");            (* stb_vorbis CRC table built on first use *)
    ("mixer", "libxmp_verif_wraparound.ld");    (* verification hook H2 *)
-   ("mixer", "libxmp_verif_wraplog")]%string.  (* verification hook H2 *)
+   ("mixer", "libxmp_verif_mixer_iters");      (* verification hook H5 *)
+   ("mixer", "libxmp_verif_wraplog");          (* verification hook H2 *)
+   ("scan", "libxmp_verif_scanlog")]%string.   (* verification hook H3 *)
 
 Definition pair_eqb (a b : string * string) : bool := String.eqb (fst a) (fst b) && String.eqb (snd a) (snd b).
 Definition subset_of (l m : list (string * string)) : bool := forallb (fun x => existsb (pair_eqb x) m) l.
